@@ -476,6 +476,7 @@ def trcl_deck(rnd, force_sp=None):
     else:
         d.cells.append(dk.Cell(2, ('and', ('cell', 1), ('s', -big)), imp=1))
     d.cells.append(dk.Cell(3, ('s', big), imp=0))
+    d.dot_spelling = rnd.random() < 0.35        # '.5' / '.6' for '0.5' / '0.6' (also inside TRCL=( ... ))
     return d, pre
 
 
